@@ -307,10 +307,10 @@ class PackageMachine:
             if st.last_kind == "bytesio" and isinstance(st.last_target, io.BytesIO):
                 ops.append(("save", "bytesio-again"))  # the buffer of the previous save is used again
         elif alphabet == "c04":
-            ops += [("add_file", "path"), ("add_file", "io"), ("add_file", "io2"), ("del_part_bin",), ("del_part_added",), ("image_frame",), ("merge_styles",), ("merge_styles", "example.odp"), ("merge_styles", "background.odp"), ("clone",), ("edit_body",), ("touch", "manifest")]
+            ops += [("add_file", "path"), ("add_file", "io"), ("add_file", "io2"), ("del_part_bin",), ("del_part_added",), ("del_part_untyped",), ("image_frame",), ("merge_styles",), ("merge_styles", "example.odp"), ("merge_styles", "background.odp"), ("clone",), ("edit_body",), ("touch", "manifest")]
             ops += [("save", "zip"), ("save", "bytesio")]
         elif alphabet == "c04m":
-            ops += [("add_file", "path"), ("add_file", "io"), ("del_part_added",), ("del_part_bin",), ("save", "zip")]
+            ops += [("add_file", "path"), ("add_file", "io"), ("del_part_added",), ("del_part_bin",), ("del_part_untyped",), ("save", "zip")]
         if st.saved:
             ops.append(("reopen",))
         return ops
@@ -384,6 +384,14 @@ class PackageMachine:
                 m.parts["Pictures/mcnew.bin"] = ("bin", b"\x00\x01binary\xff")
             elif name == "del_part_bin":
                 names = self._bin_names(st)
+                if names:
+                    doc.del_part(names[0])
+                    del m.parts[names[0]]
+                    self._model_manifest_del(m, names[0])
+                    st.deleted = True
+            elif name == "del_part_untyped":
+                # a part the manifest declares with an empty media type (Configurations2/accelerator/current.xml ...)
+                names = [pth for pth, mt in sorted(m.manifest_entries(), key=repr) if not mt and pth and not pth.endswith("/") and pth in m.parts]
                 if names:
                     doc.del_part(names[0])
                     del m.parts[names[0]]
